@@ -329,7 +329,7 @@ fn random_op(r: &mut Rng) -> Op {
 }
 
 // ------------------------------------------------------------------ cluster part
-fn cluster_run(n: usize, arbiter_at: usize, seed0: u64, nconf: usize, v: &Verdicts, st: &Mutex<Stats>) {
+fn cluster_run(n: usize, arbiter_at: usize, writer_at: usize, seed0: u64, nconf: usize, v: &Verdicts, st: &Mutex<Stats>) {
     let Some(mut c) = form_cluster(n, seed0, "c13") else {
         st.lock().unwrap().inconclusive += 1;
         v.inconclusive("cluster formation failed");
@@ -346,14 +346,25 @@ fn cluster_run(n: usize, arbiter_at: usize, seed0: u64, nconf: usize, v: &Verdic
         c.send("arb", l);
     }
     let _ = c.run_until_quiet();
-    // conflicting versioned writes on the primary
+    // conflicting versioned writes, from a session on the primary or on a secondary (the arbiter may sit on another node
+    // than the writer: the write has to reach the node that holds the registration)
+    let writer = if writer_at == 0 { "w" } else { "cw" };
+    if writer_at != 0 {
+        c.open_session("cw", writer_at);
+        c.send("cw", "use-db arb tok");
+        let _ = c.run_until_quiet();
+    }
     for i in 0..nconf {
-        c.send("w", &format!("set-safe alpha 0 cand{}", i));
+        c.send(writer, &format!("set-safe alpha 0 cand{}", i));
     }
     let q = c.run_until_quiet();
     let fail = |c: &Cluster, problem: &str, detail: String| {
-        v.report(json!({"check": "arbiter", "mode": "cluster", "arbiter_at": if arbiter_at == 0 {"primary"} else {"secondary"}, "problem": problem}),
-            json!({"nodes": n, "seed": seed0, "conflicts": nconf, "detail": detail, "datasets": (0..n).map(|i| c.dataset(i)).collect::<Vec<_>>(),
+        let mut sig = json!({"check": "arbiter", "mode": "cluster", "arbiter_at": if arbiter_at == 0 {"primary"} else {"secondary"}, "problem": problem});
+        if writer_at != 0 {
+            sig["writer_at"] = json!(if writer_at == arbiter_at { "the-arbiter's-secondary" } else { "a-secondary-without-the-arbiter" });
+        }
+        v.report(sig,
+            json!({"nodes": n, "seed": seed0, "conflicts": nconf, "writer_at_node": writer_at, "detail": detail, "datasets": (0..n).map(|i| c.dataset(i)).collect::<Vec<_>>(),
                    "links_tail": c.link_log().iter().rev().take(40).rev().map(|l| format!("[{}] n{}->n{} {}", l.0, l.1, l.2, l.3)).collect::<Vec<_>>(), "arbiter_inbox": c.replies("arb")}));
     };
     if !matches!(q, Outcome::Quiet(_)) {
@@ -570,7 +581,10 @@ pub fn run(tier: &str) -> i32 {
                 let mut r = Rng::new(seed().wrapping_mul(7_000_003).wrapping_add(i as u64));
                 let n = 2 + (i % 2);
                 let arbiter_at = if i % 4 < 2 { 0 } else { 1 };
-                cluster_run(n, arbiter_at, r.next(), 1 + (i / 4) % 3, v, st);
+                // every third run the conflicting writer talks to a secondary (the last node: with three nodes and the
+                // arbiter on node 1 that is a secondary without the arbiter)
+                let writer_at = if i % 3 == 2 { n - 1 } else { 0 };
+                cluster_run(n, arbiter_at, writer_at, r.next(), 1 + (i / 4) % 3, v, st);
             });
         }
     });
@@ -579,7 +593,7 @@ pub fn run(tier: &str) -> i32 {
     ev.set("pending_conflict_across_snapshot_and_restart_cases", json!(restart_cases));
     ev.evaluations = s.sequences + s.cluster_runs;
     ev.distinct_nontrivial = s.shapes.len() as u64;
-    ev.rule = format!("single node: {} systematic sequences (every sequence of {} steps over {{set, stale set-safe, current set-safe, arbiter connect, arbiter disconnect, resolve the oldest, resolve the newest notice out of order, get, set of the value the key holds}} after two base writes, followed by connect + resolves + a final write) + {} random sequences of 4-14 steps over 2 keys; a scripted arbiter answers the notices it received (echoing op id and version); a conflict-queue model is checked after every step. Cluster: {} Engine N runs (2-3 nodes, arbiter on the primary or on a secondary, 1-3 conflicting writes, resolves oldest first). distinct_nontrivial = distinct compressed sequences of step outcomes (write-ok / conflict with no, connected or absent arbiter / connect with or without pending / resolve last or with more queued)", systematic, depth, n_random, s.cluster_runs);
+    ev.rule = format!("single node: {} systematic sequences (every sequence of {} steps over {{set, stale set-safe, current set-safe, arbiter connect, arbiter disconnect, resolve the oldest, resolve the newest notice out of order, get, set of the value the key holds}} after two base writes, followed by connect + resolves + a final write) + {} random sequences of 4-14 steps over 2 keys; a scripted arbiter answers the notices it received (echoing op id and version); a conflict-queue model is checked after every step. Cluster: {} Engine N runs (2-3 nodes, arbiter on the primary or on a secondary, 1-3 conflicting writes from a session on the primary or - every third run - on a secondary, resolves oldest first). distinct_nontrivial = distinct compressed sequences of step outcomes (write-ok / conflict with no, connected or absent arbiter / connect with or without pending / resolve last or with more queued)", systematic, depth, n_random, s.cluster_runs);
     ev.samples = s.samples.clone();
     ev.set("steps", json!(s.steps));
     ev.set("conflicts_recorded", json!(s.conflicts));
